@@ -213,6 +213,7 @@ func (r *Runner) step(i int, op Op) {
 				return
 			}
 			r.M.M[op.Key].Ver = m.Ver
+			r.M.LastWrite[op.Key] = *r.M.M[op.Key]
 			r.lastDataVer[op.Key] = m.Ver
 		} else {
 			cls += "-refused"
@@ -338,6 +339,17 @@ func (r *Runner) MarkRestart(phase string) {
 	}
 	r.setPhaseAll(phase)
 	r.Restarts++
+}
+
+// Fail reports a violation found by a harness-side monitor; sig carries its own
+// property prefix (e.g. "c18:...").
+func (r *Runner) Fail(sig, detail string) {
+	r.failed = true
+	tr := r.Trace
+	if len(tr) > 40 {
+		tr = tr[len(tr)-40:]
+	}
+	r.Rep.Violate(r.Case, sig, detail+"\n-- last operations --\n"+strings.Join(tr, "\n"), r.Opt.Replay)
 }
 
 // Tracef lets harness code add lines to the operation trace.
